@@ -840,6 +840,21 @@ func TestC38Validators(t *testing.T) {
 		w.ext.set(r.ExtMode)
 		compErr := safeVerify(nodevalidation.New(vs...), ni)
 
+		// A time-out of the local gRPC / HTTP round trip is a property of the (shared, loaded)
+		// machine, not of the validators: such a case decides nothing.
+		timedOut := isTimeout(compErr)
+		for _, e := range single {
+			timedOut = timedOut || isTimeout(e)
+		}
+		if timedOut {
+			envTimeouts++
+			rec.Case(false, "env-timeout", "env-timeout")
+			if envTimeouts > 50 {
+				ev.Inconclusive("more than 50 cases hit local network time-outs (overloaded machine)")
+			}
+			return
+		}
+
 		allAccept := true
 		firstReject := ""
 		nRej := 0
@@ -918,6 +933,16 @@ func TestC38Validators(t *testing.T) {
 			}
 		}
 	})
+}
+
+var envTimeouts int
+
+func isTimeout(err error) bool {
+	if err == nil {
+		return false
+	}
+	m := err.Error()
+	return strings.Contains(m, "DeadlineExceeded") || strings.Contains(m, "deadline exceeded") || strings.Contains(m, "Client.Timeout")
 }
 
 func errMap(m map[string]error) string {
